@@ -56,3 +56,15 @@ package lifecyclereconciler
 //@ effect[C25:expiration-before-transition] every m.expireObjects(_, _, _, _) forbids before m.transitionObjects(_, _, _, _)
 //@ effect[C25:noncurrent-expiration-before-transition] every m.expireNoncurrentObjectVersions(_, _, _, _)
 //@     forbids before m.transitionNoncurrentObjectVersions(_, _, _, _)
+
+// A delete marker is expired only when no object version of its key remains, which is known only after the whole
+// version listing has been read: no marker is judged while listing pages are still being fetched, the candidate judged
+// is a current delete marker whose key showed no object version, and every listing page continues where the previous
+// one stopped.
+//@ func (*lifecycleReconcilerStorageMiddleware).expireObjectDeleteMarkers
+//@ mode effects
+//@ effect[C25:markers-judged-after-the-whole-listing] every m.expireObjectDeleteMarkerIfDue(__) forbids after m.Next.ListObjectVersions(__)
+//@ effect[C25:marker-judged-only-without-object-versions] every m.expireObjectDeleteMarkerIfDue(_, $b, $dm, $rs)
+//@     where $b == bucketName && $dm != nil && $dm == candidate.currentDeleteMarker && !candidate.hasObjectVersion && same($rs, rules)
+//@ effect[C25:marker-listing-pages-continue] every m.Next.ListObjectVersions(_, $b, $o)
+//@     where $b == bucketName && $o.KeyMarker == keyMarker && $o.VersionIDMarker == versionIDMarker
